@@ -24,6 +24,8 @@ THEOREMS = [
     'C12.colour_ok', 'C12.coherent_clean', 'C12.ircWrap_fits_clean', 'C12.fits_512_clean',
     'C12.visible_text_clean', 'C12.reply_text_clean',
     'C12.two_requesters', 'C12.more_protocol_interleaved', 'C12.adopt_copy',
+    'C12.fits_length_partial', 'C12.fits_length_nocolour', 'C12.fits_length_clean', 'C12.length_overflow_counterexample',
+    'C12.locale_texts_ok', 'C12.sentLine_le', 'C12.action_reply_single', 'C12.replyCall_normal', 'C12.unchecked_counterexample',
 ]
 TRUSTED = ['Lean 4.33.0 kernel; axioms ⊆ {propext, Classical.choice, Quot.sound}',
            'harness/extractors/reply.py (constants of splitBytes, FormatContext, FormatParser, reply, _makeReply → Gen/Reply.lean)',
@@ -349,6 +351,10 @@ def settle(fails):
 # live level
 # ---------------------------------------------------------------------------------------------
 _live = None
+F_UNCHECKED = 'C12-unchecked-replies-truncated'
+CONF_KEYS = ['withnotice', 'inprivate', 'nickprefix', 'errnotice', 'errprivate', 'mores', 'length', 'maximum', 'instant']
+CONF_DEFAULTS = {'withnotice': False, 'inprivate': False, 'nickprefix': True, 'errnotice': False, 'errprivate': False,
+                 'mores': True, 'length': 0, 'maximum': 50, 'instant': 1}
 
 
 class Live(object):
@@ -358,6 +364,22 @@ class Live(object):
         bot.register_welcome(self.b)
         import VtLong.plugin as vp
         self.vp = vp
+        # translations: what scripts/supybot does at start-up, and the installed layout of the core locales
+        # (setup.py maps the package supybot.locales to /repo/locales)
+        import supybot.i18n as i18n
+        from vlib import REPO
+        self.i18n = i18n
+        if getattr(i18n, 'conf', None) is None:
+            i18n.import_conf()
+        real_path = i18n.getLocalePath
+
+        def locale_path(name, localeName, extension):
+            if name == 'supybot':
+                return '%s/%s.%s' % (os.path.join(REPO, 'locales'), localeName, extension)
+            return real_path(name, localeName, extension)
+        i18n.getLocalePath = locale_path
+        self.lang = 'en'
+        self.overridden = []
         self.spy = []
         iu = self.b.ircutils
         real = iu.wrap
@@ -369,64 +391,103 @@ class Live(object):
             spy.append((s, length, list(res)))
             return res
         self.spy_wrap = wrap
+        self.texts = {}
+
+    def groups(self):
+        c = self.b.conf.supybot
+        return {'withnotice': c.reply.withNotice, 'inprivate': c.reply.inPrivate, 'nickprefix': c.reply.withNickPrefix,
+                'errnotice': c.reply.error.withNotice, 'errprivate': c.reply.error.inPrivate, 'mores': c.reply.mores,
+                'length': c.reply.mores.length, 'maximum': c.reply.mores.maximum, 'instant': c.reply.mores.instant}
+
+    def set_lang(self, lang):
+        if lang != self.lang:
+            self.b.conf.supybot.language.setValue(lang)
+            self.i18n.reloadLocalesIfRequired()
+            self.lang = lang
+        if lang not in self.texts:
+            import Misc.plugin as mp
+            cb = self.b.callbacks
+            self.texts[lang] = {
+                'sing': str(cb._('more message')), 'plur': str(cb._('more messages')),
+                'empty': str(cb._('Error: I tried to send you an empty message.')), 'errp': str(cb._('Error: ')),
+                'nomore': re.escape(str(mp._("That's all, there is no more."))),
+                'notasked': re.escape(str(mp._('You haven\'t asked me a command; perhaps you want '
+                                               'to see someone else\'s more.  To do so, call this '
+                                               'command with that person\'s nick.'))),
+                'nopublic': re.escape(str(mp._('%s has no public mores.'))).replace('%s', '.*'),
+                'cantfind': re.escape(str(mp._('Sorry, I can\'t find any mores for %s'))).replace('%s', '.*'),
+            }
+        return self.texts[lang]
 
     def configure(self, cfg):
+        g = self.groups()
+        # forget the channel values of the previous case: the children inherit from the global value again
+        for (grp, child) in self.overridden:
+            child._setValue(grp.value, inherited=True)
+        del self.overridden[:]
+        for k in CONF_KEYS:
+            g[k].setValue(cfg.get(k, CONF_DEFAULTS[k]))
         c = self.b.conf.supybot
-        c.reply.mores.length.setValue(cfg['length'])
-        c.reply.mores.maximum.setValue(cfg['maximum'])
-        c.reply.mores.instant.setValue(cfg['instant'])
-        c.reply.mores.setValue(True)
-        c.reply.withNickPrefix.setValue(cfg['nickprefix'])
-        c.reply.withNotice.setValue(cfg.get('withnotice', False))
-        c.reply.inPrivate.setValue(cfg.get('inprivate', False))
         c.reply.withNoticeWhenPrivate.setValue(cfg.get('noticewhenprivate', True))
+        c.reply.maximumLength.setValue(cfg.get('nestedmax', 512 * 256))
         c.plugins.Misc.mores.setValue(cfg['batch'])
+        ch = cfg.get('chan')
+        if ch:
+            for k in CONF_KEYS:
+                child = g[k].get(ch['name'])
+                child.setValue(ch['vals'].get(k, CONF_DEFAULTS[k]))
+                self.overridden.append((g[k], child))
         self.b.irc.prefix = cfg['botprefix']
+        return self.set_lang(cfg.get('lang', 'en'))
 
     def run(self, inp):
         b = self.b
-        self.configure(inp['cfg'])
+        T = self.configure(inp['cfg'])
         b.callbacks.IrcObjectProxy._mores.clear()
         self.vp.VtLong.TEXT = inp['text']
-        self.vp.VtLong.KW = dict(inp['kw'])
+        kw = dict(inp['kw'])
+        shape = inp.get('shape', 'reply')
+        if shape == 'action':
+            kw['action'] = True
+        self.vp.VtLong.KW = kw
         del self.spy[:]
         chan = inp['target'].startswith('#')
+        cmd = {'reply': 'vtlong', 'action': 'vtlong', 'error': 'vterr', 'nested': 'vtarg [vtlong]'}[shape]
         b.ircutils.wrap = self.spy_wrap
         try:
-            first = bot.feed(b, inp['prefix'], inp['target'], '@vtlong' if chan else 'vtlong')
+            first = bot.feed(b, inp['prefix'], inp['target'], ('@' if chan else '') + cmd)
         finally:
             b.ircutils.wrap = self.real_wrap
-        mask = inp['prefix'].split('!', 1)[1]
-        stored = b.callbacks.IrcObjectProxy._mores.get(mask)
-        stored = None if stored is None else list(stored)
         who = {'A': inp['prefix'], 'B': inp.get('prefixB'), 'C': inp.get('prefixC')}
+        owner = inp.get('owner', 'A')
+        stored = b.callbacks.IrcObjectProxy._mores.get(who[owner].split('!', 1)[1])
+        stored = None if stored is None else list(stored)
         anick = inp['prefix'].split('!', 1)[0]
         steps = []        # (who, nick argument or None, code, messages)
 
         def do(w, nickarg):
             txt = ('@more' if chan else 'more') + ((' "%s"' % nickarg) if nickarg else '')
             bt = bot.feed(b, who[w], inp['target'], txt)
-            code, real = more_code(bt)
+            code, real = more_code(bt, T)
             steps.append((w, nickarg, code, real))
             return code
         for w, kind in inp.get('actions', []):
             do(w, inp.get('nickref', anick) if kind == 'moreA' else None)
-        for _ in range(MAX_MORES):      # A pages through the rest
-            if do('A', None) != 'sent':
+        for _ in range(MAX_MORES):      # the owner of the stack pages through the rest
+            if do(owner, None) != 'sent':
                 break
-        return first, stored, steps, list(self.spy)
+        return first, stored, steps, list(self.spy), T
 
 
-def more_code(bt):
+def more_code(bt, T):
     """what a `more` call answered: ('sent', messages) or an error code"""
     real = [m for m in bt if m.command in ('PRIVMSG', 'NOTICE')]
     texts = [m.args[-1] for m in real]
-    if any(ERR_NOMORE in t for t in texts): return 'nomore', []
-    if any("You haven't asked me a command" in t for t in texts): return 'notasked', []
-    if any('has no public mores' in t for t in texts): return 'nopublic', []
-    if any("can't find any mores" in t for t in texts): return 'cantfind', []
+    for code in ('nomore', 'notasked', 'nopublic', 'cantfind'):
+        if any(re.search(T[code], t) for t in texts):
+            return code, []
     if not real: return 'nothing', []
-    if any('Error: ' in t for t in texts): return 'error', []
+    if any(T['errp'] in t for t in texts): return 'error', []
     return 'sent', real
 
 
@@ -438,7 +499,10 @@ def live():
 
 
 def enc_msg(m):
-    return '%s:%s:%s' % (wire.enc(m.command), wire.enc(m.args[0]), wire.enc(m.args[1]))
+    plain = '%s %s :%s\r\n' % (m.command, m.args[0], m.args[1])
+    sent = str(m)
+    return '%s:%s:%s:%s' % (wire.enc(m.command), wire.enc(m.args[0]), wire.enc(m.args[1]),
+                            '' if sent == plain else wire.enc(sent))
 
 
 def enc_msgs(ms):
@@ -450,60 +514,99 @@ def optb(v):
     return '~' if v is None else ('1' if v else '0')
 
 
-def env_fields(L, inp):
+def call_fields(L, inp):
+    """the raw call (keywords, message, configuration tables) for the model; everything that depends on the
+    bot's state (is it a channel, is the nick known) is asked to the real code BEFORE the command runs"""
     b = L.b
     irc = b.irc
+    iu = b.ircutils
     cfg = inp['cfg']; kw = inp['kw']
     nick = inp['prefix'].split('!', 1)[0]
 
     def pub(x):
         return bool(irc.isChannel(irc.stripChannelPrefix(x)))
     to = kw.get('to')
-    return [wire.enc(cfg['botprefix']), wire.enc(nick), wire.enc(inp['target']), optb(pub(inp['target'])),
-            wire.enc_opt(to), optb(pub(to) if to is not None else False), optb(pub(nick)), optb(pub(inp['target'])),
-            optb(kw.get('notice')), optb(kw.get('private')), optb(kw.get('prefixNick', cfg['nickprefix'])),
-            '1', optb(cfg.get('withnotice', False)), optb(cfg.get('inprivate', False)), optb(cfg['nickprefix']),
-            optb(cfg.get('noticewhenprivate', True))]
+    tohm = None
+    if to:
+        try:
+            tohm = irc.state.nickToHostmask(to)
+        except KeyError:
+            tohm = None
+
+    def vals(d):
+        return [optb(d.get(k, CONF_DEFAULTS[k])) if isinstance(CONF_DEFAULTS[k], bool) else str(d.get(k, CONF_DEFAULTS[k]))
+                for k in CONF_KEYS]
+    ch = cfg.get('chan')
+    return [wire.enc(cfg['botprefix']), wire.enc(inp['prefix']), wire.enc(nick), wire.enc(inp['target']),
+            optb(pub(inp['target'])), wire.enc_opt(to), optb(pub(to) if to is not None else False), optb(pub(nick)),
+            optb(pub(inp['target'])), optb(bool(iu.isChannel(to)) if to else False), optb(bool(iu.isChannel(inp['target']))),
+            optb(bool(iu.isNick(to)) if to else False), wire.enc_opt(tohm),
+            optb(kw.get('notice')), optb(kw.get('private')), optb(kw.get('prefixNick')),
+            optb(inp.get('shape') == 'action'), '1', wire.enc(cfg.get('lang', 'en')),
+            optb(cfg.get('noticewhenprivate', True))] + vals(cfg) + \
+           [wire.enc_opt(ch['name'] if ch else None)] + vals(ch['vals'] if ch else {})
 
 
-def cfg_fields(inp):
-    c = inp['cfg']
-    return [str(c['length']), str(c['maximum']), str(c['instant']), '1']
-
-
-_suffix_re = re.compile(r' \x02\((\d+) more messages?\)\x02$')
-ERR_NOMORE = "That's all, there is no more."
+MAX_WIRE = 512
 
 
 def live_case(I, L, inp, kind='live'):
-    """run one reply + mores on the live bot; return (Case, phase-1 driver line, function building phase-2 lines)"""
+    """run one reply (+ mores) on the live bot; return (Case, phase-1 driver line, phase-2 builder, combiner)"""
     b = L.b
-    first, stored, steps, spy = L.run(inp)
+    call = call_fields(L, inp)
+    kwto = inp['kw'].get('to')
+    if kwto and b.ircutils.isNick(kwto):
+        try:
+            # the stack is stored under the hostmask the bot knows for `to`: that user pages through it
+            inp['prefixB'] = b.irc.state.nickToHostmask(kwto)
+            inp['owner'] = 'B'
+            inp.pop('actions', None)
+        except KeyError:
+            inp.pop('owner', None)
+    first, stored, steps, spy, T = L.run(inp)
     cfg = inp['cfg']
-    safe = b.ircutils.safeArgument(inp['text'])
+    shape = inp.get('shape', 'reply')
+    owner = inp.get('owner', 'A')
+    text = inp['text'][:cfg['nestedmax']] if shape == 'nested' else inp['text']
+    safe = b.ircutils.safeArgument(text)
+    safe_full = b.ircutils.safeArgument(inp['text'])
     is_msg = lambda m: m.command in ('PRIVMSG', 'NOTICE')
     fails = []
-    tags = ['live', 'live:chan' if inp['target'].startswith('#') else 'live:private']
+    tags = ['live', 'live:chan' if inp['target'].startswith('#') else 'live:private', 'live:shape-' + shape]
+    if cfg.get('lang', 'en') != 'en': tags.append('live:lang-' + cfg['lang'])
+    if cfg.get('chan'): tags.append('live:channel-values')
+    # effective values, for the oracle only (the model does its own lookups)
+    lookup_target = inp['kw'].get('to') if (inp['kw'].get('private') and inp['kw'].get('to')) else inp['target']
+    eff = dict((k, cfg.get(k, CONF_DEFAULTS[k])) for k in CONF_KEYS)
+    if cfg.get('chan') and cfg['chan']['name'] == lookup_target and b.ircutils.isChannel(lookup_target):
+        eff.update(cfg['chan']['vals'])
+        tags.append('live:channel-values-used')
+    suffix_re = re.compile(r' \x02\((\d+) (%s|%s)\)\x02$' % (re.escape(T['sing']), re.escape(T['plur'])))
     # ---- canonical implementation output
     parts = []
-    if spy:
+    if shape in ('action', 'error'):
+        parts.append(shape)
+    elif spy:
         s1, wl, _ = spy[0]
         parts.append('chunked\t%s\t%d' % (wire.enc(s1), wl))
     else:
         s1 = None
         parts.append('single')
-    parts.append('sent\t%s\t%s' % (enc_msgs(first), '~' if stored is None else enc_msgs(stored)))
-    delivered = list(first)        # the stream of the requester (and of whoever shares his user@host)
+    if shape == 'error':
+        parts.append(enc_msgs(first) if first else 'nothing')
+    else:
+        parts.append('sent\t%s\t%s' % (enc_msgs(first), '~' if stored is None else enc_msgs(stored)))
+    delivered = list(first)        # the stream of the owner of the stack (and of whoever shares his user@host)
+    mates = ('A', 'C') if owner == 'A' else ('B',)
     for (w, nickarg, code, real) in steps:
         parts.append('sent\t' + enc_msgs(real) if code == 'sent' else code)
-        if w in ('A', 'C') and code == 'sent':
+        if w in mates and code == 'sent':
             delivered += real
     impl = '\n'.join(parts)
-    batches = [real for (w, nickarg, code, real) in steps if w in ('A', 'C')]
     # ---- the other caller: `more <A>` must give him, in order, what A had not been given yet, and
     #      must not take anything away from A (checked below on A's own stream)
     bsegs = []
-    if inp.get('actions'):
+    if inp.get('actions') and owner == 'A':
         tags.append('live:two-callers')
         pos = None
         got_a = len(first)
@@ -531,12 +634,34 @@ def live_case(I, L, inp, kind='live'):
                 continue
             bsegs.append((pos, [enc_msg(m) for m in real], code))
             pos += len(real)
+    if owner == 'B':
+        tags.append('live:stored-under-to')
     # ---- property oracle on the implementation
     n = len(delivered)
+    wirelens = [blen(':%s %s' % (cfg['botprefix'], str(m))) for m in delivered]
+    evaluated = True
     if not first or not all(is_msg(m) for m in delivered):
         fails.append((None, 'the command produced %r' % [str(m) for m in first]))
+    elif shape in ('action', 'error'):
+        # not length-checked by the code: one message, cut by Irc._truncateMsg when too long
+        m = first[0]
+        cut = str(m) != '%s %s :%s\r\n' % (m.command, m.args[0], m.args[1])
+        if len(first) != 1:
+            fails.append((None, '%s reply produced %d messages' % (shape, len(first))))
+        if cut or wirelens[0] > MAX_WIRE:
+            fails.append((F_UNCHECKED, '%s reply of %d bytes is one message: relayed line %d bytes, cut by the bot: %s'
+                          % (shape, blen(safe), wirelens[0], cut)))
+            tags.append('class:' + F_UNCHECKED)
+        want = (T['errp'] + safe) if shape == 'error' else ('\x01ACTION %s\x01' % safe.strip('\x01'))
+        body = m.args[1]
+        if not body.endswith(want):
+            fails.append((None, '%s reply carries %r, expected …%r' % (shape, body[-80:], want[-80:])))
+    elif not eff['mores'] and blen(safe) > 0:
+        tags.append('live:mores-off')
+        evaluated = (len(first) == 1 and wirelens[0] <= MAX_WIRE)   # reply.mores off: the operator's choice
+        if len(first) != 1:
+            fails.append((None, 'reply.mores off: %d messages' % len(first)))
     else:
-        wirelens = [blen(':%s %s' % (cfg['botprefix'], str(m))) for m in delivered]
         tgt = delivered[0].args[0]
         np = ''
         to = inp['kw'].get('to') or inp['prefix'].split('!', 1)[0]
@@ -544,15 +669,20 @@ def live_case(I, L, inp, kind='live'):
             np = to + ': '
             tags.append('live:nickprefix')
         if delivered[0].command == 'NOTICE': tags.append('live:notice')
-        if cfg['length'] == 0:
-            allowed = 512 - (wirelens[0] - blen(delivered[0].args[1]) + blen(np))
-            over = [(w, m) for w, m in zip(wirelens, delivered) if w > 512]
-            if over:
-                cl = None
-                if s1 is not None and F_COMMA in classify_wrap(I, s1, spy[0][1]): cl = F_COMMA
-                fails.append((cl, 'relayed line has %d bytes: %r' % (over[0][0], ':%s %s' % (cfg['botprefix'], str(over[0][1])))))
+        frame = wirelens[0] - blen(delivered[0].args[1]) + blen(np)
+        if eff['length'] == 0:
+            allowed = MAX_WIRE - frame
+            limit = MAX_WIRE
         else:
-            allowed = cfg['length']
+            allowed = eff['length']
+            limit = max(MAX_WIRE, frame + allowed) if frame + allowed > MAX_WIRE else MAX_WIRE
+            tags.append('live:explicit-length')
+            if frame + allowed > MAX_WIRE: tags.append('live:length-makes-512-impossible')
+        over = [(w, m) for w, m in zip(wirelens, delivered) if w > limit]
+        if over:
+            cl = None
+            if s1 is not None and F_COMMA in classify_wrap(I, s1, spy[0][1]): cl = F_COMMA
+            fails.append((cl, 'relayed line has %d bytes (limit %d): %r' % (over[0][0], limit, ':%s %s' % (cfg['botprefix'], str(over[0][1])))))
         # counts and text
         texts = []
         for k, m in enumerate(delivered):
@@ -562,20 +692,23 @@ def live_case(I, L, inp, kind='live'):
             if not p.startswith(np):
                 fails.append((None, 'message %d lacks the nick prefix %r: %r' % (k, np, p)))
             p = p[len(np):]
-            mm = _suffix_re.search(p)
+            mm = suffix_re.search(p)
             remaining = n - 1 - k
             if remaining == 0:
                 if mm and n > 1:
                     fails.append((None, 'last message still announces %s more: %r' % (mm.group(1), p)))
             else:
-                if not mm or int(mm.group(1)) != remaining or (('messages' in mm.group(0)) != (remaining > 1)):
+                if not mm or int(mm.group(1)) != remaining or ((mm.group(2) == T['plur']) != (remaining > 1) and T['plur'] != T['sing']):
                     fails.append((None, 'message %d of %d announces %r, %d remain' % (k + 1, n, mm.group(0) if mm else None, remaining)))
                 if mm:
                     p = p[:mm.start()]
             texts.append(p)
-        want_src = safe[:allowed * cfg['maximum']] if len(safe) > allowed * cfg['maximum'] else safe
-        if len(safe) > allowed * cfg['maximum']: tags.append('live:truncated')
+        want_src = safe[:allowed * eff['maximum']] if len(safe) > allowed * eff['maximum'] else safe
+        if len(safe) > allowed * eff['maximum']: tags.append('live:truncated')
+        if shape == 'nested' and len(inp['text']) > cfg['nestedmax']: tags.append('live:nested-truncated')
         want = I.visible(I.munge(want_src)) if n > 1 else I.visible(want_src)
+        if not want_src.strip('\x01') and n == 1:
+            want = T['empty']
         got = ''.join(I.visible(t) for t in texts)
         if got != want:
             cl = None
@@ -584,16 +717,16 @@ def live_case(I, L, inp, kind='live'):
                 cl = F_CUT if F_CUT in cls else (F_COMMA if F_COMMA in cls else None)
             fails.append((cl, 'visible text delivered %r differs from the reply %r' % (got[:300], want[:300])))
         # batch sizes
-        exp_first = min(max(cfg['instant'], 1), n)
+        exp_first = min(max(eff['instant'], 1), n)
         if len(first) != exp_first and n > 0 and spy:
-            fails.append((None, 'first answer has %d messages, instant=%d, %d chunks' % (len(first), cfg['instant'], n)))
-        if n > cfg['maximum']:
-            fails.append((F_MAX, '%d messages for reply.mores.maximum=%d' % (n, cfg['maximum'])))
+            fails.append((None, 'first answer has %d messages, instant=%d, %d chunks' % (len(first), eff['instant'], n)))
+        if n > eff['maximum']:
+            fails.append((F_MAX, '%d messages for reply.mores.maximum=%d' % (n, eff['maximum'])))
             tags.append('class:' + F_MAX)
         # after the last chunk, more says there is no more
-        acodes = [code for (w, nickarg, code, real) in steps if w == 'A']
-        if spy and len(acodes) < MAX_MORES and (not acodes or acodes[-1] not in ('nomore', 'notasked')):
-            fails.append((None, 'more after the last chunk answered %r' % (acodes[-1:],)))
+        ocodes = [code for (w, nickarg, code, real) in steps if w == owner]
+        if spy and len(ocodes) < MAX_MORES and (not ocodes or ocodes[-1] not in ('nomore', 'notasked')):
+            fails.append((None, 'more after the last chunk answered %r' % (ocodes[-1:],)))
     full = [enc_msg(m) for m in delivered]
     for (pos, got, code) in bsegs:
         want = full[pos:pos + len(got)] if got else []
@@ -606,40 +739,52 @@ def live_case(I, L, inp, kind='live'):
         tags.append('live:chunked')
         tags.append('live:chunks%s' % ('1' if n == 1 else '2-5' if n <= 5 else '6-20' if n <= 20 else '21+'))
         for c in classify_wrap(I, spy[0][0], spy[0][1]): tags.append('class:' + c)
-        if cfg['instant'] > 1: tags.append('live:instant')
+        if eff['instant'] > 1: tags.append('live:instant')
         if cfg['batch'] > 1: tags.append('live:batch')
         if any(ord(c) > 127 for c in inp['text']): tags.append('live:multibyte')
         if '\x03' in inp['text']: tags.append('live:colour')
-    else:
+    elif shape in ('reply', 'nested'):
         tags.append('live:single')
     for k in ('private', 'notice', 'to'):
         if inp['kw'].get(k): tags.append('live:kw-' + k)
     ok, msg, finding = settle(fails)
+    if not evaluated and ok:
+        ok = None
     case = Case(inp, impl=impl, oracle_ok=ok, oracle_msg=msg, finding=finding, kind=kind, tags=tags)
-    env = env_fields(L, inp)
-    prep_line = 'prep\t%s\t%s\t%s' % (wire.enc(safe), '\t'.join(cfg_fields(inp)), '\t'.join(env))
-
-    amask = inp['prefix'].split('!', 1)[1]
+    nested = str(cfg['nestedmax']) if shape == 'nested' else '~'
+    if shape == 'error':
+        prep_line = 'error\t%s\t%s' % (wire.enc(safe_full), '\t'.join(call))
+    else:
+        prep_line = 'prep\t%s\t%s\t%s' % (wire.enc(safe_full), nested, '\t'.join(call))
+    prefixes = {'A': inp['prefix'], 'B': inp.get('prefixB'), 'C': inp.get('prefixC')}
 
     def phase2(prep_out):
-        f = prep_out.split('\t')
-        if len(f) == 3 and f[2] == '0':
-            ch = I.chunks(wire.dec(f[1]))
+        if shape == 'error':
+            lines = ['clear']
         else:
-            ch = []
-        lines = ['clear', 'reply\t%s\t%s\t%s\t%s\t%s' % (wire.enc(amask), wire.enc(safe), wire.enc_list(ch),
-                                                          '\t'.join(cfg_fields(inp)), '\t'.join(env))]
-        prefixes = {'A': inp['prefix'], 'B': inp.get('prefixB'), 'C': inp.get('prefixC')}
+            f = prep_out.split('\t')
+            if len(f) == 3 and f[2] == '0':
+                ch = I.chunks(wire.dec(f[1]))
+            else:
+                ch = []
+            lines = ['clear', 'reply\t%s\t%s\t%s\t%s' % (wire.enc(safe_full), wire.enc_list(ch), nested, '\t'.join(call))]
         for (w, nickarg, code, real) in steps:
             lines.append('more\t%d\t%s\t%s' % (cfg['batch'], wire.enc(prefixes[w].split('!', 1)[1]), wire.enc_opt(nickarg)))
         return lines
 
     def combine(prep_out, outs):
-        # outs: clear, reply, more*
-        f = outs[1].split('\t')
-        if f[0] == 'sent' and len(f) == 4:
-            head = 'single' if f[3] == '~' else 'chunked\t%s\t%s' % (prep_out.split('\t')[1], f[3])
-            return '\n'.join([head, 'sent\t%s\t%s' % (f[1], f[2])] + outs[2:])
+        if shape == 'error':
+            return '\n'.join(['error', prep_out] + outs[1:])
+        f = outs[1].split('\t')     # outs: clear, reply, more*
+        if f[0] == 'sent' and len(f) == 5:
+            if shape == 'action':
+                head = 'action'
+            else:
+                head = 'single' if f[3] == '~' else 'chunked\t%s\t%s' % (prep_out.split('\t')[1], f[3])
+            # what is stored is looked up by the harness under the owner's hostmask
+            own = prefixes[owner].split('!', 1)[1]
+            stored_m = f[2] if (f[2] == '~' or wire.dec(f[4]).lower() == own.lower()) else '~'
+            return '\n'.join([head, 'sent\t%s\t%s' % (f[1], stored_m)] + outs[2:])
         return '\n'.join([prep_out] + outs)
     return case, prep_line, phase2, combine
 
@@ -654,6 +799,10 @@ def gen_live_input(r, thorough=False):
     cfg['withnotice'] = r.random() < 0.15
     cfg['inprivate'] = r.random() < 0.1
     cfg['noticewhenprivate'] = r.random() < 0.8
+    cfg['errnotice'] = r.random() < 0.2
+    cfg['errprivate'] = r.random() < 0.15
+    cfg['mores'] = r.random() >= 0.05
+    cfg['lang'] = 'en' if r.random() < 0.8 else r.choice(['fr', 'de', 'fi', 'it'])
     hl = r.randint(20, 90)
     user = 'u' * r.randint(1, 10)
     host = ('h' * 70)[:max(1, hl - len('test!') - len(user) - 1)]
@@ -661,13 +810,28 @@ def gen_live_input(r, thorough=False):
     nick = r.choice(['al', 'alice', 'Bob_', 'n' * 16, 'x' * 30, 'zoé' if r.random() < 0.3 else 'carol', 'Al[i]ce'])
     prefix = '%s!%s@%s' % (nick, 'id' * r.randint(1, 4), r.choice(['host', 'a.b.c.example.org', 'h' * 40]))
     target = r.choice(['#c', '#chan', '#' + 'c' * 30, '#ünï', 'test', 'test'])
+    prefixB = '%s!%s@%s' % (r.choice(['bob', 'B[o]b', 'robert_']), r.choice(['bo', 'rob']), r.choice(['host.b', 'b.example.org']))
     kw = {}
     k = r.random()
     if k < 0.1: kw['private'] = True
     elif k < 0.2: kw['notice'] = True
-    elif k < 0.3: kw['to'] = r.choice(['dave', 'e' * 25, '#other'])
+    elif k < 0.3: kw['to'] = r.choice(['dave', 'e' * 25, '#other', prefixB.split('!')[0], prefixB.split('!')[0]])
     elif k < 0.35: kw['prefixNick'] = not cfg['nickprefix']
+    elif k < 0.38: kw.update(private=True, to=r.choice(['#other', 'dave']))
+    shape = r.choice(['reply'] * 14 + ['error', 'error', 'action', 'action', 'nested', 'nested', 'nested'])
+    if shape in ('nested', 'error'):
+        kw = {}
+    if shape == 'nested':
+        cfg['nestedmax'] = r.choice([50, 300, 2000, 512 * 256])
+    if r.random() < 0.25:
+        # values set for one channel: the channel of the message, the channel given with to=, or another one
+        vals = {'length': r.choice([0, 0, r.randint(45, 200)]), 'maximum': r.choice([1, 3, 50]), 'instant': r.choice([1, 2]),
+                'nickprefix': r.random() < 0.5, 'withnotice': r.random() < 0.5, 'inprivate': r.random() < 0.2,
+                'mores': r.random() >= 0.1, 'errnotice': r.random() < 0.5, 'errprivate': r.random() < 0.3}
+        cfg['chan'] = {'name': r.choice([target if target.startswith('#') else '#chan', '#other', '#elsewhere']), 'vals': vals}
     width = (cfg['length'] or 400)
+    if cfg.get('chan') and cfg['chan']['name'] == target and cfg['chan']['vals']['length']:
+        width = cfg['chan']['vals']['length']
     want_chunks = r.choice([1, 1, 2, 3, 4, 6, 10, 20, 40, 60])
     if cfg['length'] == 0:
         want_chunks = min(want_chunks, 14 if not thorough else 60)
@@ -694,10 +858,13 @@ def gen_live_input(r, thorough=False):
     if r.random() < 0.5: text = text.rstrip()
     if r.random() < 0.03: text = '\x01' + text
     if r.random() < 0.02: text = text[:len(text) // 2] + '\n' + text[len(text) // 2:]
-    inp = {'cfg': cfg, 'prefix': prefix, 'target': target, 'kw': kw, 'text': text or 'x'}
-    if r.random() < 0.45 and 'to' not in kw:
+    if shape == 'nested':
+        text = text.replace('\n', ' ')
+    inp = {'cfg': cfg, 'prefix': prefix, 'target': target, 'kw': kw, 'text': text or 'x', 'prefixB': prefixB}
+    if shape != 'reply':
+        inp['shape'] = shape
+    if r.random() < 0.45 and 'to' not in kw and shape in ('reply', 'nested'):
         # a second caller (other user@host) using `more <A>`, sometimes a third one sharing A's user@host
-        inp['prefixB'] = '%s!%s@%s' % (r.choice(['bob', 'B[o]b', 'robert_']), r.choice(['bo', 'rob']), r.choice(['host.b', 'b.example.org']))
         inp['prefixC'] = '%s!%s' % (r.choice(['carl', 'al_away']), prefix.split('!', 1)[1])
         if r.random() < 0.3:
             inp['nickref'] = ''.join(c.upper() if c.isascii() else c for c in nick).replace('[', '{') if r.random() < 0.7 else nick
